@@ -48,6 +48,17 @@
 use crate::platform::CompiledRegex;
 use crate::prelude::*;
 
+/// ECMAScript relational comparison of two primitive values: two strings are
+/// compared lexicographically by UTF-16 code unit, everything else numerically.
+/// `None` is the "undefined" outcome (an operand converts to NaN), for which
+/// every relational operator yields false.
+pub fn js_compare(left: &JsValue, right: &JsValue) -> Option<core::cmp::Ordering> {
+    if let (JsValue::String(a), JsValue::String(b)) = (left, right) {
+        return Some(a.as_str().encode_utf16().cmp(b.as_str().encode_utf16()));
+    }
+    left.to_number().partial_cmp(&right.to_number())
+}
+
 /// ECMAScript ToUint32: truncate toward zero, then wrap modulo 2^32.
 ///
 /// A plain `as u32` cast saturates instead of wrapping (`2**32 | 0` must be 0,
